@@ -31,11 +31,12 @@ KERNELS = {
     "k_malloc_int": ["n32"], "k_malloc_vs24": ["n32"], "k_malloc_one_long": [],
     "k_app_pointer": ["any64"], "k_accept": ["any64"],
     "k_plain_plus_ptr": ["ptr", "n32"],
+    "k_staticcast_mi": ["ptr"],
 }
 OPTIONAL = {"k_plain_plus_ptr"}
 # offsets added by derived-address operations: the result may leave the region only because the
 # *object* designated by an inside pointer does not fit before the end of the region
-DERIVED = {"k_addrof_field_a": 0, "k_addrof_field_c": 8, "k_addrof_arr_elem": None}
+DERIVED = {"k_addrof_field_a": 0, "k_addrof_field_c": 8, "k_addrof_arr_elem": None, "k_staticcast_mi": 56}
 
 
 def check_op(ctx, k, log, room_scale=1):
@@ -83,7 +84,7 @@ def check_op(ctx, k, log, room_scale=1):
     known = []
     if k in DERIVED and ptr is not None:
         # object designated by the input pointer does not fit inside the region
-        objsize = 12 if k != "k_addrof_arr_elem" else 16
+        objsize = {"k_addrof_arr_elem": 16, "k_staticcast_mi": 64}.get(k, 12)
         known = [("C03-object-straddles-end", z3.UGT(ptr - base, BV(size - objsize, 64)))]
     for q in paths:
         if q.status == "ret":
